@@ -31,6 +31,51 @@ type c07Step struct {
 	// the invalid member: a failed registration then passes through a type other pool members nest
 	Around int  `json:"around,omitempty"`
 	Fresh  bool `json:"fresh,omitempty"` // also compare with the same call made first in a fresh process
+	// Deep (op "deep"): a decode of a synthesised message for a curated recursive type, nested within
+	// the accepted depth, beyond the bound, or cut short (Cut/16 of its length): whatever the decoder
+	// keeps count of while it descends must start afresh with every call
+	Deep *c15Case `json:"deep,omitempty"`
+	Cut  int      `json:"cut,omitempty"`
+}
+
+// stepSpec: the type a step works on.
+func stepSpec(pool []*core.StructSpec, st c07Step) *core.StructSpec {
+	if st.Op == "deep" && st.Deep != nil {
+		return core.LookupSpec(st.Deep.Type)
+	}
+	return pool[st.T]
+}
+
+var c07DeepTypes = []string{"RecL", "RecSet", "RecMV", "RecMK", "RecLL", "RecH", "RecMix", "RecReq", "RecBV", "RecS"}
+
+// genDeepBurst: a run of decodes that fail at depth (too deep, or cut inside the nesting), followed by
+// decodes of messages nested as deep as is always accepted.
+func genDeepBurst(t *rapid.T) []c07Step {
+	var out []c07Step
+	typ := rapid.SampledFrom(c07DeepTypes).Draw(t, "deeptype")
+	var names []string
+	for n := range c15Shapes[typ] {
+		names = append(names, n)
+	}
+	sortStrings(names)
+	mk := func(depth, cut int) c07Step {
+		d := c15Case{Type: typ, UnknownAt: -1, Depth: depth}
+		for i := rapid.IntRange(1, 3).Draw(t, "deepnshapes"); i > 0; i-- {
+			d.Shapes = append(d.Shapes, rapid.SampledFrom(names).Draw(t, "deepshape"))
+		}
+		return c07Step{Op: "deep", Deep: &d, Cut: cut}
+	}
+	for i := rapid.IntRange(1, 12).Draw(t, "deepfails"); i > 0; i-- {
+		if rapid.Bool().Draw(t, "deepcutit") {
+			out = append(out, mk(rapid.IntRange(20, 48).Draw(t, "deepd"), rapid.IntRange(3, 15).Draw(t, "deepcut")))
+		} else {
+			out = append(out, mk(rapid.SampledFrom([]int{1024, 1030, 1100, 1500, 2500}).Draw(t, "deepover"), 0))
+		}
+	}
+	for i := rapid.IntRange(1, 3).Draw(t, "deepoks"); i > 0; i-- {
+		out = append(out, mk(rapid.IntRange(40, 48).Draw(t, "deepok"), 0))
+	}
+	return out
 }
 
 type c07Case struct {
@@ -162,6 +207,11 @@ func genC07(t *rapid.T) c07Case {
 			c.Steps = append(c.Steps[:at:at], append(pair, c.Steps[at:]...)...)
 		}
 	}
+	if rapid.IntRange(0, 3).Draw(t, "deepburst") == 0 {
+		burst := genDeepBurst(t)
+		at := rapid.IntRange(0, len(c.Steps)).Draw(t, "deepat")
+		c.Steps = append(c.Steps[:at:at], append(burst, c.Steps[at:]...)...)
+	}
 	return c
 }
 
@@ -206,8 +256,14 @@ func execStep(pool []*core.StructSpec, st c07Step) (stepResult, bool, *Failure) 
 		}
 		return res, false, f
 	}
-	s := pool[st.T]
+	s := stepSpec(pool, st)
 	b := core.Bind(s)
+	if st.Op == "deep" {
+		st.Msg, _ = buildDeep(*st.Deep)
+		if st.Cut > 0 {
+			st.Msg = st.Msg[:len(st.Msg)*st.Cut/16]
+		}
+	}
 	switch st.Op {
 	case "size", "encode":
 		src := b.NewValue(st.V)
@@ -260,7 +316,7 @@ func execStep(pool []*core.StructSpec, st c07Step) (stepResult, bool, *Failure) 
 		co, _ := core.Canon(buf[:n])
 		res.Out = hashStr(string(co))
 		return res, true, nil
-	case "decode", "decodebad":
+	case "decode", "decodebad", "deep":
 		var dest reflect.Value
 		if st.Prior != nil {
 			dest = b.NewValue(st.Prior)
@@ -372,7 +428,7 @@ func runC07(w *worker) func(c c07Case) *Failure {
 					return failf("earlier-destination-changed", "after step %d (%s on pool type %d) the destination of the decode of step %d (which had %s) no longer reads as it did right after that call", i, st.Op, st.T, k.step, map[bool]string{true: "succeeded", false: "failed"}[k.ok])
 				}
 			}
-			if (st.Op == "decode" || st.Op == "decodebad") && c07LastDest.IsValid() && !pool[st.T].AnyNoCopy() {
+			if (st.Op == "decode" || st.Op == "decodebad" || st.Op == "deep") && c07LastDest.IsValid() && !stepSpec(pool, st).AnyNoCopy() {
 				kept = append(kept, c07Kept{c07LastDest, c07LastBound, c07LastSpec, res.Dest, i, ok})
 				if len(kept) > 5 {
 					kept = kept[1:]
@@ -409,7 +465,14 @@ func runC07(w *worker) func(c c07Case) *Failure {
 		for _, s := range c.Pool {
 			sigs = append(sigs, s.Sig())
 		}
-		w.count(interesting, key, map[string]interface{}{"history": ops, "pool": sigs}, fmt.Sprintf("steps:%d", len(c.Steps)/8*8))
+		labels := []string{fmt.Sprintf("steps:%d", len(c.Steps)/8*8)}
+		for _, st := range c.Steps {
+			if st.Op == "deep" {
+				labels = append(labels, "deep-burst")
+				break
+			}
+		}
+		w.count(interesting, key, map[string]interface{}{"history": ops, "pool": sigs}, labels...)
 		return nil
 	}
 }
